@@ -95,6 +95,7 @@ static const char* list_invalid(const ZSTD_Sequence* s, size_t ns, size_t srcSiz
     return NULL;
 }
 
+static void dbg_seq(void* o, uint32_t ll, uint32_t ml, uint32_t ov, size_t off, size_t pos) { (void)o; if (pos >= 145000 && pos <= 160000) fprintf(stderr, "  R seq: ll=%u ml=%u offset_value=%u offset=%zu pos_at_match=%zu\n", ll, ml, ov, off, pos); }
 static int g_dictFormatted;   /* the dictionary handed to verify_frame is a formatted one (magic, entropy tables, content) */
 static void verify_frame(const char* what, const uint8_t* f, size_t fsz, const uint8_t* src, size_t n, const uint8_t* dict, size_t dlen, const char* desc, size_t windowLimit)
 {
@@ -105,9 +106,10 @@ static void verify_frame(const char* what, const uint8_t* f, size_t fsz, const u
     if (ZSTD_isError(r) || r != n || memcmp(out, src, n)) v_viol("positive:frame-does-not-decode(lib)", "%s %s: %s", what, desc, ZSTD_isError(r) ? ZSTD_getErrorName(r) : "mismatch");
     ZSTD_freeDCtx(d);
     refdec_info_t I; memset(&I, 0, sizeof I); I.keep_blocks = 1; refdec_dict_t* rd = dict ? refdec_dict_create(dict, dlen, g_dictFormatted ? 2 : 1) : NULL;
+    if (getenv("VERIF_C17_TRACE")) I.seq_cb = dbg_seq;
     memset(out, 0, n);
     if (!refdec_decode(out, n, f, fsz, rd, &I, 0)) v_viol("positive:frame-rejected-by-R", "%s %s: %s", what, desc, I.err ? I.err : "?");
-    else if (I.out_size != n || memcmp(out, src, n)) v_viol("positive:frame-decodes-to-other-bytes(R)", "%s %s", what, desc);
+    else if (I.out_size != n || memcmp(out, src, n)) { size_t fd = 0; while (fd < n && out[fd] == src[fd]) fd++; v_viol("positive:frame-decodes-to-other-bytes(R)", "%s %s (first difference at byte %zu)", what, desc, fd); }
     else {
         refdec_frame_t* F = &I.frames[0]; size_t nseq = 0;
         for (size_t b = 0; b < I.nb_blocks; b++) { nseq += I.blocks[b].nb_seq; if (I.blocks[b].rsize > (128u << 10) || (windowLimit && I.blocks[b].rsize > windowLimit)) v_viol("positive:block-exceeds-limit", "%s block %zu", what, I.blocks[b].rsize); }
@@ -123,6 +125,7 @@ typedef struct { vrng* r; const parsecfg* C; int mode; long calls; long failed; 
 static size_t producer(void* st, ZSTD_Sequence* outSeqs, size_t outSeqsCapacity, const void* src, size_t srcSize, const void* dict, size_t dictSize, int level, size_t windowSize)
 {
     prodstate* P = (prodstate*)st; (void)dict; (void)dictSize; (void)level; P->calls++;
+    if (getenv("VERIF_C17_TRACE")) fprintf(stderr, "producer call %ld srcSize=%zu mode=%d maxSeqs=%d mask=%08x\n", P->calls, srcSize, P->mode, P->maxSeqs, P->failMask);
     {   int const failsNow = P->mode != 0 && ((P->failMask >> (P->calls - 1 > 31 ? 31 : P->calls - 1)) & 1) && srcSize > 0;
         if (failsNow) { P->failed++; if (P->mode == 1) return ZSTD_SEQUENCE_PRODUCER_ERROR; if (P->mode == 2) return outSeqsCapacity + 1; return 0; } }
     parsecfg C = *P->C; C.explicitDelims = 1; C.blockMax = srcSize ? srcSize : 1; C.window = V_MIN(C.window, windowSize); C.dictLen = 0; C.dict = NULL;
@@ -135,6 +138,7 @@ static size_t producer(void* st, ZSTD_Sequence* outSeqs, size_t outSeqsCapacity,
         size_t consumed = 0; for (size_t i = 0; i < v.n; i++) consumed += v.s[i].litLength + v.s[i].matchLength;
         sv_push(&v, 0, (uint32_t)(n - consumed), 0); }
     if (v.n > outSeqsCapacity) { free(v.s); return ZSTD_SEQUENCE_PRODUCER_ERROR; }
+    if (getenv("VERIF_C17_TRACE") && P->calls >= 40 && P->calls <= 50) for (size_t i = 0; i < v.n; i++) fprintf(stderr, "  call %ld seq %zu: off=%u ll=%u ml=%u\n", P->calls, i, v.s[i].offset, v.s[i].litLength, v.s[i].matchLength);
     memcpy(outSeqs, v.s, v.n * sizeof(ZSTD_Sequence)); size_t const k = v.n; free(v.s); return k;
 }
 
@@ -147,7 +151,8 @@ static void run_positive(long idx)
     int const wlog = (int)vr_range(&r, 10, 21); unsigned const minMatch = (unsigned)vr_range(&r, 3, 7);
     int maxBlock = vr_chance(&r, 1, 3) ? (int)vr_range(&r, 1024, 131072) : 0;
     int const mode = (int)vr_u(&r, 4);
-    if (mode == 3 && vr_chance(&r, 1, 2)) maxBlock = (int)vr_range(&r, 1024, 16384);      /* producers are called once per block: many blocks = many producer decisions per frame */       /* 0 own parser explicit, 1 own parser no delimiters, 2 generateSequences, 3 registered producer */
+    if (mode == 3 && vr_chance(&r, 1, 2)) maxBlock = (int)vr_range(&r, 1024, 16384);      /* producers are called once per block: many blocks = many producer decisions per frame */
+    if (mode == 3 && vr_chance(&r, 1, 2)) { fam = vr_chance(&r, 2, 3) ? DF_REPBAIT : DF_LZ; gen_data(&r, src, n, fam); }      /* several live offsets: the repeat-offset history matters from block to block */       /* 0 own parser explicit, 1 own parser no delimiters, 2 generateSequences, 3 registered producer */
     int const repSearch = (int)vr_range(&r, 0, 2); int const level = (int)vr_range(&r, 1, 12);
     size_t dictLen = 0; uint8_t* dict = NULL;
     if (mode < 2 && vr_chance(&r, 1, 3)) { dictLen = vr_chance(&r, 1, 3) ? 1 + vr_u(&r, 200000) : 1 + vr_u(&r, 20000); dict = (uint8_t*)malloc(dictLen); if (n > 16) { for (size_t i = 0; i < dictLen; i++) dict[i] = src[(i * 3) % n]; memcpy(dict, src + vr_u64(&r, n / 2), V_MIN(dictLen, n / 2)); } else gen_data(&r, dict, dictLen, fam); }
@@ -156,7 +161,7 @@ static void run_positive(long idx)
     ZSTD_CCtx* c = ZSTD_createCCtx();
     ZSTD_CCtx_setParameter(c, ZSTD_c_compressionLevel, level); ZSTD_CCtx_setParameter(c, ZSTD_c_windowLog, wlog); ZSTD_CCtx_setParameter(c, ZSTD_c_minMatch, (int)minMatch);
     if (maxBlock) ZSTD_CCtx_setParameter(c, ZSTD_c_maxBlockSize, maxBlock);
-    ZSTD_CCtx_setParameter(c, ZSTD_c_validateSequences, (int)vr_u(&r, 2)); ZSTD_CCtx_setParameter(c, ZSTD_c_searchForExternalRepcodes, repSearch);
+    ZSTD_CCtx_setParameter(c, ZSTD_c_validateSequences, (int)vr_u(&r, 2)); ZSTD_CCtx_setParameter(c, ZSTD_c_searchForExternalRepcodes, getenv("VERIF_C17_REP") ? atoi(getenv("VERIF_C17_REP")) : repSearch);
     ZSTD_CCtx_setParameter(c, ZSTD_c_checksumFlag, (int)vr_u(&r, 2));
     char desc[256]; snprintf(desc, sizeof desc, "mode=%d n=%zu fam=%s wlog=%d minMatch=%u maxBlock=%d level=%d rep=%d dict=%zu style=%d", mode, n, v_df_name[fam], wlog, minMatch, maxBlock, level, repSearch, dictLen, C.style);
     v_stat("positive_cases", 1);
@@ -213,7 +218,7 @@ static void run_positive(long idx)
         P.maxSeqs = vr_chance(&r, 1, 2) ? (int)vr_u(&r, 7) : -1;
         int const fallback = (int)vr_u(&r, 2);
         ZSTD_registerSequenceProducer(c, &P, producer);
-        ZSTD_CCtx_setParameter(c, ZSTD_c_enableSeqProducerFallback, fallback);
+        ZSTD_CCtx_setParameter(c, ZSTD_c_enableSeqProducerFallback, fallback); if (getenv("VERIF_C17_NOFAIL")) P.failMask = 0; if (getenv("VERIF_C17_MAXSEQ")) P.maxSeqs = atoi(getenv("VERIF_C17_MAXSEQ")); if (getenv("VERIF_C17_LEVEL")) ZSTD_CCtx_setParameter(c, ZSTD_c_compressionLevel, atoi(getenv("VERIF_C17_LEVEL")));
         ZSTD_CCtx_setParameter(c, ZSTD_c_validateSequences, 1);
         size_t cs;
         if (vr_chance(&r, 1, 2)) cs = ZSTD_compress2(c, dst, cap, src, n);
